@@ -31,7 +31,7 @@ def programs(tier, seed):
     singles = progs.enumerate_programs(1)
     pairs = progs.enumerate_programs(2)
     out += singles
-    out += pairs[::6] if tier == "quick" else pairs
+    out += [p for p in pairs if progs.quick_keep(p[0], 6)] if tier == "quick" else pairs
     for tr in progs.CURATED:
         src = progs.make(tr)
         ops = progs.try_build(src)
